@@ -1,107 +1,134 @@
 """C04: circuit breaker trips and recovers exactly as its documented state machine."""
 from fractions import Fraction
 from circuit_common import *
+from circuit_common import classify as circuit_common_classify
 PROP = "C04"
 RULE = ("sequential histories over {success, failure, slow success, slow failure, wait, force_open, force_closed, reset} with a custom classifier, "
         "both window types, window sizes 1..5, thresholds {0,1/10,1/3,1/2,2/3,1}, minimum below/equal/above the window, permitted 1..3, slow detection on/off; "
-        "plus long histories without a transition (the window must slide) and histories whose failure rate EQUALS a threshold num/den for which binary64 arithmetic is fragile; non-trivial = the breaker left Closed at least once")
+        "plus long histories without a transition (the window must slide), histories whose failure rate — and, separately, whose slow-call rate — EQUALS a threshold num/den for which binary64 arithmetic is fragile "
+        "(with the companion history one short of the threshold), and histories with minimum_number_of_calls left unset (default = window size); non-trivial = the breaker left Closed at least once")
 
 
 def generate(rng, tier):
     k = 1 if tier == "quick" else 15
+    md = 45 if tier == 'quick' else 100
     return ([random_seq_history(rng) for _ in range(1500 * k)] + [long_no_transition(rng) for _ in range(30 * k)] +
-            rate_boundary_scripts(rng, 45 if tier == 'quick' else 100))
+            rate_boundary_scripts(rng, md) + slow_rate_boundary_scripts(rng, md) +
+            [unset_minimum_history(rng) for _ in range(150 * k)])
 
 
-def monitor(s, t):
-    """the documented machine, restated independently, over a sequential history"""
+def _walk(s, t):
+    """The documented machine, restated independently, run along a sequential history.
+    Returns (message or None, events looked at, events in the script). A script is sequential as long as one call
+    is in progress at a time (first poll, optional advances = its latency, completion, second poll) and nothing is
+    cancelled or panics; events on a caller that is already finished or was rejected (completing it, polling it
+    again) are inert and are skipped, NOT a reason to stop looking. What is checked, after every event at which no
+    call is in progress: state().await == the documented machine's state, the three views agree, and for every
+    call whether the inner service was invoked. Nothing else (no counters of the snapshot: the text only says the
+    snapshot agrees with the state; they are pinned by the model comparison and by C04_refines_spec's o_counts)."""
     d = decode(s, t)
     if d is None:
-        return "malformed or panicking run: %s" % t[:12]
+        return ("malformed or panicking run: %s" % t[:12], 0, 0)
     tb, wsize, wdur, minc, fnum, fden, slow_on, slow_thr, snum, sden, wait, perm, fb, n = s[:NCFG]
-    if perm < 1:
-        return None
+    total = len(d)
+    if perm < 1 or fden <= 0 or sden <= 0:
+        return (None, 0, total)
+    if minc < 0:
+        minc = wsize        # minimum_number_of_calls not set: documented default = sliding_window_size
     fthr, sthr = Fraction(fnum, fden), Fraction(snum, sden)
     now = 0
     state, hist, since, succ = 'closed', [], None, 0
-    cur = None      # call in progress: (caller, start instant, admitted?)
-    seen = set()
+    cur = None      # call in progress: [caller, start instant, outcome or None]
+    seen = set()    # callers whose call future exists
     code = {'closed': 0, 'open': 1, 'half': 2}
+    looked = 0
     for (e, o) in d:
         op, a, b = e
-        r, started, st, sync, mst, tot, fl, su, sl = o[:9]
+        r, started, st, sync, mst = o[:5]
         if not (st == sync == mst):
-            return "views disagree after %s: state=%d state_sync/is_open=%d metrics.state=%d" % (e, st, sync, mst)
+            return ("views disagree after %s: state=%d state_sync/is_open=%d metrics.state=%d" % (e, st, sync, mst), looked, total)
         if op == 3:
             now += max(0, a)
-        elif op == 5:
-            if cur: return None
-            if state != 'open':
-                state, since = 'open', now
-        elif op == 6:
-            if cur: return None
-            if state != 'closed':
+        elif op in (5, 6, 7):
+            if cur:
+                return (None, looked, total)         # operator action during a call: not sequential
+            if op == 5:
+                if state != 'open':
+                    state, since = 'open', now
+            elif op == 6:
+                if state != 'closed':
+                    state, hist = 'closed', []
+            else:
                 state, hist = 'closed', []
-        elif op == 7:
-            if cur: return None
-            state, hist = 'closed', []
-        elif op == 2:
-            return None      # cancellations are not part of sequential histories
+        elif op in (2, 8):
+            return (None, looked, total)             # cancellations / un-polled futures: not sequential histories
         elif op == 4:
-            if cur is None or cur[0] != a or b == 4:
-                return None  # not a sequential history
-            cur = (cur[0], cur[1], b)
+            if cur is not None and cur[0] == a:
+                if b in (4, 5) or cur[2] is not None:
+                    return (None, looked, total)     # panics are not in the history alphabet
+                cur[2] = b
+            elif a in seen:
+                pass                                 # completion for a finished / rejected caller: inert
+            else:
+                return (None, looked, total)         # result available before the call starts: not sequential
         elif op == 1:
             if a not in seen:
                 if cur is not None:
-                    return None
+                    return (None, looked, total)     # a second caller while one is in progress
                 seen.add(a)
                 # admission decision of the documented machine
                 if state == 'open' and now - since >= wait:
                     state, succ = 'half', 0
                 admit = state != 'open'
                 if bool(started) != admit:
-                    return "at t=%d in state %s the call was %s, the documented machine %s it" % (
-                        now, state, "admitted" if started else "rejected", "admits" if admit else "rejects")
+                    return ("at t=%d in state %s the call was %s, the documented machine %s it" % (
+                        now, state, "admitted" if started else "rejected", "admits" if admit else "rejects"), looked, total)
                 if admit:
-                    cur = (a, now, None)
                     if r != 0:
-                        return None   # completed in its first poll: gate was pre-filled, not sequential
-                continue_check = not admit
+                        return (None, looked, total)
+                    cur = [a, now, None]
+            elif cur is not None and cur[0] == a:
+                if cur[2] is None:
+                    if r != 0:
+                        return (None, looked, total)
+                else:
+                    outcome = cur[2]
+                    fail = outcome in (1, 2)
+                    dur = now - cur[1]
+                    slow = bool(slow_on) and dur >= slow_thr
+                    cur = None
+                    if state == 'closed':
+                        hist.append((now, fail, slow))
+                        if tb:
+                            w = [h for h in hist if now - h[0] <= wdur]
+                            enough = len(w) >= minc
+                        else:
+                            w = hist[-max(wsize, 1):]
+                            enough = len(hist) >= minc and len(hist) >= wsize
+                        nf, ns = sum(1 for h in w if h[1]), sum(1 for h in w if h[2])
+                        if enough and w and (Fraction(nf, len(w)) >= fthr or (slow_on and Fraction(ns, len(w)) >= sthr)):
+                            state, since = 'open', now
+                    elif state == 'half':
+                        if fail:
+                            state, since = 'open', now
+                        else:
+                            succ += 1
+                            if succ >= perm:
+                                state, hist = 'closed', []
             else:
-                if cur is None or cur[0] != a or cur[2] is None:
-                    if cur is not None and cur[0] == a and r == 0:
-                        continue      # spurious poll of the running call
-                    return None
-                outcome = cur[2]
-                fail = outcome in (1, 2)
-                dur = now - cur[1]
-                slow = bool(slow_on) and dur >= slow_thr
-                cur = None
-                if state == 'closed':
-                    hist.append((now, fail, slow))
-                    if tb:
-                        w = [h for h in hist if now - h[0] <= wdur]
-                        enough = len(w) >= minc
-                    else:
-                        w = hist[-max(wsize, 1):]
-                        enough = len(hist) >= minc and len(hist) >= wsize
-                    nf, ns = sum(1 for h in w if h[1]), sum(1 for h in w if h[2])
-                    if enough and w and (Fraction(nf, len(w)) >= fthr or (slow_on and Fraction(ns, len(w)) >= sthr)):
-                        state, since = 'open', now
-                elif state == 'half':
-                    if fail:
-                        state, since = 'open', now
-                    else:
-                        succ += 1
-                        if succ >= perm:
-                            state, hist = 'closed', []
-        if cur is None:
-            if st != code[state]:
-                return "after %s at t=%d the breaker is in state %d, the documented machine in %s" % (e, now, st, state)
-            if state == 'closed' and not tb:
-                w = hist[-max(wsize, 1):]
-                exp = (len(w), sum(1 for h in w if h[1]), sum(1 for h in w if h[2]))
-                if (tot, fl, sl) != exp:
-                    return "metrics snapshot (total, failures, slow)=%s but the last %d recorded calls give %s" % ((tot, fl, sl), max(wsize, 1), exp)
-    return None
+                pass                                 # poll of a finished / rejected caller: inert
+        looked += 1
+        if cur is None and st != code[state]:
+            return ("after %s at t=%d the breaker is in state %d, the documented machine in %s" % (e, now, st, state), looked, total)
+    return (None, looked, total)
+
+
+def monitor(s, t):
+    return _walk(s, t)[0]
+
+
+def classify(s, t):
+    out = circuit_common_classify(s, t)
+    _, looked, total = _walk(s, t)
+    out.append("monitored_to_the_end" if looked == total else "monitor_stopped_early")
+    return out
